@@ -2,7 +2,7 @@
 import json
 import session
 
-C06_PREDS = ["C06_UniqueIds", "C06_NoDupPairs", "C06_PairsFromCurrent", "C06_SelListed", "C06_IdStable",
+C06_PREDS = ["C06_RemoteFilter", "C06_UniqueIds", "C06_NoDupPairs", "C06_PairsFromCurrent", "C06_SelListed", "C06_IdStable",
              "C06_RemotesDeduped", "C06_NoResidue", "C06_NoResidueNew", "C06_SupersessionPreserves"]
 C02_PREDS = ["C02_BadRequestInert", "C02_BadResponseInert", "C02_ErrorInert", "C02_NonBindingInert", "C02_IndicationOnlyLiveness",
              "C02_UnmatchedResponse", "C02_MatchedOnly"]
@@ -85,9 +85,10 @@ def c05(tier, seed):
 
 def c06(tier, seed):
     w = n(tier, 200, 3000)
-    runs = [dict(cfg=c, traces=w, preds=C06_PREDS) for c in ("pnat", "pnatc", "prst", "p11", "p21n", "pall", "p22", "pnewrst", "pclose")]
+    runs = [dict(cfg=c, traces=w, preds=C06_PREDS) for c in ("pnat", "pnatc", "prst", "p11", "p21n", "pall", "p22", "pnewrst", "pclose", "pfilter")]
     runs[0]["scheds"] = ["nm_findpair"]
     plan = {"runs": runs, "mc": [("pnat", ["UniqueIds", "NoDupPairs", "PairsFromCurrent", "SelListed"], None),
+                                 ("pfilter", ["UniqueIds", "NoDupPairs", "PairsFromCurrent", "SelListed", "FilterHolds"], None),
                                  ("prst", ["UniqueIds", "NoDupPairs", "PairsFromCurrent", "SelListed"], None),
                                  ("pclose", ["UniqueIds", "NoDupPairs", "PairsFromCurrent", "SelListed", "SelWhileConnected"], None, ["Lifecycle", "ReleasedOnFailed"])],
             "assumptions": SESSION_ASSUME}
